@@ -6,6 +6,7 @@
   pipeline after `csv.reader`, for every list of records of every shape.
 -/
 import Serif.Proofs.Csv
+import Serif.Proofs.CsvLex
 
 namespace Serif.C19
 open Serif.Csv
@@ -170,5 +171,83 @@ example : readCsv demoOracle true [["a", "b"]] = [⟨"a", []⟩, ⟨"b", []⟩] 
 example : readCsv demoOracle true [[], ["1", "2"]] = [] := by decide
 example : (readCsv demoOracle true [["a"], ["", "1"], ["2"]]).map (fun c => colDType Prod.fst c.data)
     = [some ⟨.int, true⟩] := by decide
+
+/-! #### the lexical layer: "fields containing delimiters, quotes or newlines are read as the csv module defines them"
+
+`Serif.CsvLex` models `csv.reader(file_obj, delimiter=d)` with the dialect defaults `read_csv` leaves in place (CPython's
+six-state machine driven line by line).  The theorems below say what that definition *means* for every text a writer of the same
+dialect can produce: for every delimiter other than the quote and the line-end characters, every list of records, every field
+text (delimiters, quotes, CR, LF, anything) and every admissible choice of which fields to quote, reading the written text back
+yields exactly the records — so `read_csv` sees the cell texts that were written, whatever they contain. -/
+
+open Serif.CsvLex in
+/-- reading back what the writer wrote (character-stream view of the reader) -/
+theorem lexer_roundtrip (d : Char) (g : GoodDelim d) (crlf : Bool) (rs : List (List (Bool × List Char)))
+    (hw : ∀ r ∈ rs, wellQuoted d r = true) :
+    parseText d (renderText d crlf rs) = .ok (rs.map (·.map (·.2))) :=
+  parseText_renderText d g crlf rs hw
+
+open Serif.CsvLex in
+/-- the same for the reader as CPython drives it: line by line over the lines of the text (split at `'\n'`, ends kept) -/
+theorem lexer_roundtrip_lines (d : Char) (g : GoodDelim d) (crlf : Bool) (rs : List (List (Bool × List Char)))
+    (hw : ∀ r ∈ rs, wellQuoted d r = true) :
+    parseLines d (splitLF (renderText d crlf rs)) = .ok (rs.map (·.map (·.2))) := by
+  rw [parseLines_splitLF]; exact parseText_renderText d g crlf rs hw
+
+open Serif.CsvLex in
+/-- line-driven and character-driven reading agree on every text, well-formed or not (including the texts the reader rejects) -/
+theorem lexer_lines_eq_stream (d : Char) (t : List Char) : parseLines d (splitLF t) = parseText d t :=
+  parseLines_splitLF d t
+
+open Serif.CsvLex in
+/-- a quoted field is read verbatim whatever it contains: one record, one field -/
+theorem quoted_field_verbatim (d : Char) (g : GoodDelim d) (f : List Char) :
+    parseText d (quote :: (escape f ++ [quote, '\n'])) = .ok [[f]] := by
+  have h := parseText_renderText d g false [[(true, f)]] (by simp [wellQuoted])
+  simpa [renderText, renderRecord, renderFields, renderField] using h
+
+open Serif.CsvLex in
+/-- a blank line is the empty record (which `read_csv` turns into a row of None, or into zero columns when it is the first line) -/
+theorem blank_line_is_empty_record (d : Char) (g : GoodDelim d) (rs₁ rs₂ : List (List (Bool × List Char)))
+    (h₁ : ∀ r ∈ rs₁, wellQuoted d r = true) (h₂ : ∀ r ∈ rs₂, wellQuoted d r = true) :
+    parseText d (renderText d false rs₁ ++ '\n' :: renderText d false rs₂) =
+      .ok (rs₁.map (·.map (·.2)) ++ [] :: rs₂.map (·.map (·.2))) := by
+  have h := parseText_renderText d g false (rs₁ ++ [] :: rs₂) (by
+    intro r hr
+    rcases List.mem_append.mp hr with h | h
+    · exact h₁ r h
+    · rcases List.mem_cons.mp h with h | h
+      · subst h; rfl
+      · exact h₂ r h)
+  have hr : ∀ (a b : List (List (Bool × List Char))), renderText d false (a ++ b) = renderText d false a ++ renderText d false b := by
+    intro a b; induction a with
+    | nil => rfl
+    | cons x xs ih => simp [renderText, ih]
+  simpa [hr, renderText, renderRecord, renderFields] using h
+
+open Serif.CsvLex in
+/-- end to end: the table read from a written file is the table of the written records -/
+theorem read_written_records (O : Oracle (List Char) ν) (hh : Bool) (d : Char) (g : GoodDelim d) (crlf : Bool)
+    (rs : List (List (Bool × List Char))) (hw : ∀ r ∈ rs, wellQuoted d r = true) :
+    (parseText d (renderText d crlf rs)).map (readCsv O hh) = .ok (readCsv O hh (rs.map (·.map (·.2)))) := by
+  rw [parseText_renderText d g crlf rs hw]; rfl
+
+open Serif.CsvLex in
+/-- the four delimiters the check drives, and the tab, are admissible -/
+theorem usual_delimiters_good : GoodDelim ',' ∧ GoodDelim ';' ∧ GoodDelim '\t' ∧ GoodDelim '|' :=
+  ⟨⟨by decide, by decide⟩, ⟨by decide, by decide⟩, ⟨by decide, by decide⟩, ⟨by decide, by decide⟩⟩
+
+/-! non-vacuity of the lexer theorems: a record with an embedded delimiter, quote, CR LF and a bare field; a lone empty field
+    must be quoted (bare it *is* the blank line); an unterminated quote runs to the end of the input; a bare CR inside a
+    line the reader does not split is rejected -/
+open Serif.CsvLex in
+example : wellQuoted ',' [(true, "a,\"b\r\nc".toList), (false, "x y".toList), (false, [])] = true ∧
+    (parseText ',' "\"a,\"\"b\r\nc\",x y,\n".toList).toOption = some [["a,\"b\r\nc".toList, "x y".toList, []]] := by decide
+open Serif.CsvLex in
+example : wellQuoted ',' [(false, [])] = false ∧ (parseText ',' "\n".toList).toOption = some [[]] ∧
+    (parseText ',' "\"\"\n".toList).toOption = some [[[]]] := by decide
+open Serif.CsvLex in
+example : (parseText ',' "\"ab".toList).toOption = some [["ab".toList]] ∧ (parseText ',' "a\rb".toList).toOption = none ∧
+    (parseLines ',' ["a\r".toList, "b".toList]).toOption = some [["a".toList], ["b".toList]] := by decide
 
 end Serif.C19
